@@ -42,3 +42,23 @@ theorem unit_steps_closed_form (f : ℕ → ℤ) (m : ℕ) (h : ∀ i, i + 1 < m
 theorem partial_sums_monotone (ind : ℕ → ℤ) (h : ∀ k, 0 ≤ ind k) (i j : ℕ) (hij : i ≤ j) :
     (Finset.range i).sum ind ≤ (Finset.range j).sum ind :=
   Finset.sum_le_sum_of_subset_of_nonneg (Finset.range_mono hij) (fun k _ _ => h k)
+
+/-- L6 (ancestor-or-self is a preorder): over a forest of finite depth (`parent` strictly decreases the depth `d`), any relation that satisfies the
+    recursive equation of `Scope.is_predecessor_of` (a is b, or b has a parent and a is a predecessor of it) is reflexive and transitive.
+    (Used by C04.P.common_scope, which assumes exactly these two facts about `is_predecessor_of`; the equation itself is C04.P.is_predecessor.) -/
+theorem ancestor_or_self_refl {α : Type} (parent : α → Option α) (anc : α → α → Prop)
+    (heq : ∀ a b, anc a b ↔ a = b ∨ ∃ c, parent b = some c ∧ anc a c) : ∀ a, anc a a :=
+  fun a => (heq a a).2 (Or.inl rfl)
+
+theorem ancestor_or_self_trans {α : Type} (parent : α → Option α) (anc : α → α → Prop) (d : α → ℕ)
+    (hd : ∀ b c, parent b = some c → d c < d b)
+    (heq : ∀ a b, anc a b ↔ a = b ∨ ∃ c, parent b = some c ∧ anc a c) :
+    ∀ a b c, anc a b → anc b c → anc a c := by
+  intro a b c hab
+  generalize h : d c = n
+  induction n using Nat.strong_induction_on generalizing c with
+  | _ n ih =>
+    intro hbc
+    rcases (heq b c).1 hbc with rfl | ⟨c', hp, hbc'⟩
+    · exact hab
+    · exact (heq a c).2 (Or.inr ⟨c', hp, ih (d c') (h ▸ hd c c' hp) c' rfl hbc'⟩)
